@@ -294,33 +294,49 @@ theorem replica_crash_atomic (C : Crypto) (hC : TreeStore.HashWF C) (hT : TreeSt
   · exact Or.inl ⟨shows_of_rp C bs m c' _ held r4, r4⟩
   · exact Or.inr ⟨shows_of_rp C bs _ c' _ _ r4, r4⟩
 
+/-- the same for first contact: the application of the writer's answer to "upgrade from 0" on a replica of length 0, cut
+    after any number of storage operations, leaves the fresh replica or the replica at length `n` -/
+theorem replica_first_crash_atomic (C : Crypto) (hC : TreeStore.HashWF C) (hT : TreeStore.TreeWF C) (bs : Array Bytes) (c : Core) (d : Disk)
+    (held : Nat → Bool) (h : ReplicaReopen.RP C bs 0 c d held) (n : Nat) (h0 : 0 < n) (hn : n ≤ bs.size) (sig : Bytes) (hsl : sig.length = 64)
+    (hver : C.verify c.publicKey (Growth.signableAt C bs n c.tree.fork) sig = true) (k : Nat) :
+    let st := c.verifyAndApply C d (Growth.honestFirst C bs c.tree.fork n sig)
+    let dk := d.applyAll (st.journal.take k)
+    ∃ c' j, Core.openCore C none dk = .ok (c', j) ∧ c'.publicKey = c.publicKey ∧ c'.tree.fork = c.tree.fork
+      ∧ ((Shows bs 0 (fun _ => false) c' (dk.applyAll j) ∧ ReplicaReopen.RP C bs 0 c' (dk.applyAll j) (fun _ => false))
+        ∨ (Shows bs n (fun _ => false) c' (dk.applyAll j) ∧ ReplicaReopen.RP C bs n c' (dk.applyAll j) (fun _ => false))) := by
+  intro st dk
+  obtain ⟨rfl, c1, e, j0, hk⟩ := ReplicaCrash.first_ok0 C hC hT bs c d held h n h0 hn sig hsl hver
+  obtain ⟨c', j, r1, r2, r3, r4⟩ := ReplicaCrash.crash_recover C bs 0 n c c1 d _ _ _ e j0 h hk k
+  refine ⟨c', j, r1, r2, r3, ?_⟩
+  rcases r4 with r4 | r4
+  · exact Or.inl ⟨shows_of_rp C bs 0 c' _ _ r4, r4⟩
+  · exact Or.inr ⟨shows_of_rp C bs n c' _ _ r4, r4⟩
+
 /-- **replicas survive any number of crashes.**  From a replica created with `Hypercore::new` over empty stores and
-    the writer's public key, after first contact: every state reached by honest exchanges (with the request computed
-    from the replica's current length), close/reopen steps and crashes at any storage operation of an exchange
-    followed by a reopen shows a prefix of the writer's log — and at every such state the next crash is recoverable
-    again (`replica_crash_atomic` applies: its hypothesis is the invariant this theorem provides). -/
+    the writer's public key: every state reached by first contact, honest exchanges (with the request computed from the
+    replica's current length), close/reopen steps and crashes at any storage operation of any of these applications
+    followed by a reopen (`ReplicaCrash.Reach`) shows a prefix of the writer's log — its length and byte length,
+    every held block byte-identical, `has` and the contiguous length exact — and satisfies the invariants, so
+    `replica_crash_atomic` / `replica_first_crash_atomic` apply again: the next crash is recoverable, without bound. -/
 theorem replica_survives_crashes (C : Crypto) (hC : TreeStore.HashWF C) (hT : TreeStore.TreeWF C) (bs : Array Bytes)
-    (hs : bs.size < 2 ^ 62 ∧ Offsets.psum bs bs.size < 2 ^ 64) (pk : Bytes) (hpk : pk.length = 32)
-    (n₁ : Nat) (h0 : 0 < n₁) (hn : n₁ ≤ bs.size) (sig : Bytes) (hsl : sig.length = 64)
-    (hver : C.verify pk (Growth.signableAt C bs n₁ 0) sig = true) :
-    ∃ c j, Core.openCore C (some (pk, none)) {} = .ok (c, j) ∧
-      let d := ({} : Disk).applyAll j
-      let st1 := c.verifyAndApply C d (Growth.honestFirst C bs 0 n₁ sig)
-      st1.result = .ok true ∧ ReplicaCrash.Reach C bs pk 0 (st1.core, d.applyAll st1.journal)
-        ∧ ∀ s, ReplicaCrash.Reach C bs pk 0 s →
-          ∃ m held, 0 < m ∧ m ≤ bs.size ∧ Shows bs m held s.1 s.2 ∧ ReplicaReopen.RP C bs m s.1 s.2 held ∧ s.1.publicKey = pk ∧ s.1.tree.fork = 0 := by
+    (hs : bs.size < 2 ^ 62 ∧ Offsets.psum bs bs.size < 2 ^ 64) (pk : Bytes) (hpk : pk.length = 32) :
+    ∃ c j, Core.openCore C (some (pk, none)) {} = .ok (c, j) ∧ ReplicaCrash.Reach C bs pk 0 (c, ({} : Disk).applyAll j)
+      ∧ ∀ s, ReplicaCrash.Reach C bs pk 0 s →
+          ∃ m held, m ≤ bs.size ∧ Shows bs m held s.1 s.2 ∧ ReplicaReopen.RP C bs m s.1 s.2 held ∧ s.1.publicKey = pk ∧ s.1.tree.fork = 0 := by
   obtain ⟨c, j, e1, e2, e3, e4, e5, e6⟩ := ReplicaReopen.init_replica C pk hpk
-  refine ⟨c, j, e1, ?_⟩
-  intro d st1
-  have hsz := Growth.size_extract bs n₁ hn
-  have hfresh := e4 (bs.extract 0 n₁) ⟨by rw [hsz]; omega, by
-    rw [hsz, Growth.psum_extract bs n₁ hn n₁ (Nat.le_refl _)]
-    have := Offsets.psum_mono bs hn; omega⟩
-  have hver' : C.verify c.publicKey (Growth.signableAt C bs n₁ c.tree.fork) sig = true := by rw [e2, e3]; exact hver
-  obtain ⟨r1, r2, r3, r4⟩ := ReplicaReopen.rp_first C hC hT bs hs n₁ h0 hn c d hfresh ⟨_, _, e5, e6 bs⟩ sig hsl hver'
-  rw [e3] at r1 r2 r3 r4
-  refine ⟨r1, ReplicaCrash.Reach.start _ _ n₁ _ r2 h0 (by rw [r3, e2]) r4, fun s hreach => ?_⟩
-  obtain ⟨m, held, hrp, hm, hpk', hfk'⟩ := ReplicaCrash.reach_rp C hC hT bs pk 0 s hreach
-  exact ⟨m, held, hm, hrp.rep.le, shows_of_rp C bs m s.1 s.2 held hrp, hrp, hpk', hfk'⟩
+  have hs64 : bs.size < 2 ^ 64 ∧ Offsets.psum bs bs.size < 2 ^ 64 := ⟨by omega, hs.2⟩
+  have hrp0 : ReplicaReopen.RP C bs 0 c (({} : Disk).applyAll j) (fun _ => false) :=
+    ⟨ReplicaReopen.reprAt0_of_fresh C bs bs hs64 c _ (e4 bs hs64), ⟨_, _, e5, e6 bs⟩, hs.1⟩
+  refine ⟨c, j, e1, ReplicaCrash.Reach.start _ _ 0 _ hrp0 e2 e3, fun s hreach => ?_⟩
+  obtain ⟨m, held, hrp, hpk', hfk'⟩ := ReplicaCrash.reach_rp C hC hT bs pk 0 s hreach
+  exact ⟨m, held, hrp.rep.le, shows_of_rp C bs m s.1 s.2 held hrp, hrp, hpk', hfk'⟩
+
+/-- non-vacuity: first contact, a crash in the middle of it, and a fetch are steps of `Reach` -/
+example (C : Crypto) (bs : Array Bytes) (pk : Bytes) (c : Core) (d : Disk) (h : ReplicaCrash.Reach C bs pk 0 (c, d)) (hl : c.tree.length = 0)
+    (n : Nat) (h0 : 0 < n) (hn : n ≤ bs.size) (sig : Bytes) (hsl : sig.length = 64)
+    (hver : C.verify pk (Growth.signableAt C bs n 0) sig = true) :
+    ReplicaCrash.Reach C bs pk 0 ((c.verifyAndApply C d (Growth.honestFirst C bs c.tree.fork n sig)).core,
+      d.applyAll (c.verifyAndApply C d (Growth.honestFirst C bs c.tree.fork n sig)).journal) :=
+  ReplicaCrash.Reach.first c d n sig h hl h0 hn hsl hver
 
 end HC.C02
